@@ -81,7 +81,7 @@ def tasks(tier):
     ts = [("format", k) for k in range(len(arg_forms()))]
     ts += [("string",), ("activity", "print"), ("activity", "assert"), ("activity", "assume"), ("literal",),
            ("activity", "print-under-enable"), ("activity", "assert-under-enable")]
-    ts += [("grammar", t) for t in "bodxXcs "] + [("grammar-reject",)]
+    ts += [("grammar", t) for t in "bodxXcs "] + [("grammar-reject",), ("reset",)]
     return ts
 
 
@@ -296,6 +296,91 @@ def unit_activity_inserted(kind):
     return runner.from_exploration(name, Exploration(name, body).run(), {"source_excerpt": src[:500]})
 
 
+def unit_reset():
+    """(a) contract of PyRTLProcess.reset(), over its whole (finite) state space: afterwards the process is runnable iff it
+    is combinational and is not critical, whatever it was before -- a clocked process only ever runs in response to an
+    edge, also after Simulator.reset();  (b) BOUNDED, real simulator: a design with many clocked Print processes and one
+    Assert that fails at the third edge -- run until the AssertionError, Simulator.reset(), run again: each run emits
+    exactly one line per Print per active edge (nothing at time 0, nothing twice), as a fresh simulator does."""
+    from amaranth.sim._pyrtl import PyRTLProcess
+    from amaranth.hdl import Module, Print, Assert, Format, Signal, ClockDomain
+    from amaranth.sim import Simulator
+    name = "reset"
+    obs = []
+    bad = None
+    n = 0
+    for is_comb in (False, True):
+        for runnable in (False, True):
+            for critical in (False, True):
+                n += 1
+                p = PyRTLProcess(is_comb=is_comb)
+                p.runnable, p.critical = runnable, critical
+                p.reset()
+                if (p.runnable, p.critical) != (is_comb, False) and bad is None:
+                    bad = {"is_comb": is_comb, "runnable before": runnable, "critical before": critical,
+                           "after reset()": {"runnable": p.runnable, "critical": p.critical}, "expected": {"runnable": is_comb, "critical": False},
+                           "how": "p = PyRTLProcess(is_comb=...); set the flags; p.reset()"}
+    obs.append({"name": f"{name}::PyRTLProcess.reset::runnable-iff-comb-and-not-critical", "kind": "post", "status": "proved" if bad is None else "refuted",
+                "backend": "closed", "time_s": 0.0, **({} if bad is None else {"failing_input": bad})})
+
+    def build(K):
+        m = Module()
+        ctr = Signal(4, name="ctr")
+        m.d.sync += ctr.eq(ctr + 1)
+        for i in range(K):
+            sub = Module()
+            sub.d.sync += Print(Format("p%d c={}" % i, ctr))
+            m.submodules[f"s{i}"] = sub
+        chk = Module()
+        chk.d.sync += Assert(ctr != 2, Format("ctr is {}", ctr))
+        m.submodules.chk = chk
+        return m
+
+    def run_collect(sim):
+        lines = []
+        with captured_print() as cp:
+            try:
+                sim.run_until(10e-6 * 5)
+            except AssertionError as e:
+                lines.append("ASSERT " + str(e))
+        return sorted(a[0] if a else "" for a, _k in cp.calls) + lines
+    bad2 = None
+    cases = 0
+    for K in (1, 4, 16, 40):
+        cases += 1
+        try:
+            fresh = Simulator(build(K)); fresh.add_clock(1e-6)
+            want = run_collect(fresh)
+            sim = Simulator(build(K)); sim.add_clock(1e-6)
+            first = run_collect(sim)
+            sim.reset()
+            again = run_collect(sim)
+            def legal(lines):
+                # one line per Print per active edge: edges with ctr = 0 and 1 are complete; at the edge with ctr = 2 the assertion
+                # stops the simulation, and which of the other processes of that edge already ran is not specified
+                from collections import Counter
+                cnt = Counter(l.strip() for l in lines if not l.startswith("ASSERT"))
+                for i in range(K):
+                    if cnt.pop(f"p{i} c=0", 0) != 1 or cnt.pop(f"p{i} c=1", 0) != 1 or cnt.pop(f"p{i} c=2", 0) > 1:
+                        return False
+                return not cnt and [l for l in lines if l.startswith("ASSERT")] == ["ASSERT Assertion violated: ctr is 2"]
+            ok = legal(want) and legal(first) and legal(again)
+        except Exception as e:
+            ok, want, first, again = False, repr(e), None, None
+        if not ok and bad2 is None:
+            def diff(a, b):
+                return [x for x in (a or []) if x not in (b or [])][:6] if isinstance(a, list) else a
+            bad2 = {"clocked Print submodules": K, "lines of a fresh simulator": len(want) if isinstance(want, list) else want,
+                    "lines after reset()": len(again) if isinstance(again, list) else again,
+                    "lines after reset() that a fresh simulator does not emit": diff(again, want), "emitted after reset()": (again or [])[:8] if isinstance(again, list) else again,
+                    "how": "Simulator(design); add_clock; run_until -> AssertionError; sim.reset(); run_until again; compare with a fresh Simulator"}
+    obs.append({"name": f"{name}::after-failed-assert-and-reset-emits-as-a-fresh-simulator", "kind": "bounded", "status": "proved" if bad2 is None else "refuted",
+                "backend": "cpython", "time_s": 0.0, **({} if bad2 is None else {"failing_input": bad2})})
+    return {"task": name, "paths": n + cases, "solver_s": 0.0, "obligations": obs,
+            "bounded": [{"name": "assert failure, reset, rerun", "bound": "designs with 1, 4, 16, 40 clocked Print submodules, 5 clock periods", "cases": cases,
+                         "failures": 0 if bad2 is None else 1}]}
+
+
 def _spec_space(tier_thorough=False):
     fills = [None, "x", "0", " ", "{", "}", "é"]
     aligns = [None, "<", ">", "="]
@@ -431,6 +516,8 @@ def run_task(task):
         return unit_grammar(task[1])
     if k == "grammar-reject":
         return unit_grammar_reject()
+    if k == "reset":
+        return unit_reset()
     if k == "canary-format":
         return unit_format(2, broken=True)
     raise KeyError(k)
